@@ -130,6 +130,46 @@ Proof.
   - reflexivity.
 Qed.
 
+(* the guard is also necessary whenever a value is returned: it is the minimal one *)
+Lemma map_res_ok_inv {A B} (f g : A -> result B) l os :
+  map_res f l = Ok os -> map_res g l = Ok os -> Forall (fun x => exists o, f x = Ok o /\ g x = Ok o) l.
+Proof.
+  revert os. induction l as [|x r IH]; intros os Hf Hg; simpl in *; [constructor|].
+  destruct (f x) as [o|] eqn:Ef; [|discriminate]. destruct (map_res f r) as [os1|] eqn:E1; [|discriminate].
+  destruct (g x) as [o'|] eqn:Eg; [|discriminate]. destruct (map_res g r) as [os2|] eqn:E2; [|discriminate].
+  inversion Hf; subst. inversion Hg; subst. constructor; [eauto|]. eapply IH; eauto.
+Qed.
+
+Lemma symbols_B_sensitive p b o :
+  symbols_B p SeqAbsent = Ok o -> symbols_B p (SeqBool b) = Ok o ->
+  forall s, In s (all_strings p) -> symbols_B (PStr s) (SeqBool b) = symbols_B (PStr s) SeqAbsent.
+Proof.
+  revert o. induction p using pat_ind'; intros o H1 H2 s0 Hin.
+  - simpl in Hin. destruct Hin as [<-|[]]. congruence.
+  - contradiction.
+  - rewrite symbols_B_seq in H1, H2. unfold wrap in *.
+    destruct (map_res (fun q => symbols_B q SeqAbsent) l) as [os1|] eqn:E1; [|discriminate].
+    destruct (map_res (fun q => symbols_B q (SeqBool b)) l) as [os2|] eqn:E2; [|discriminate].
+    inversion H1; subst. inversion H2; subst.
+    pose proof (map_res_ok_inv _ _ _ _ E1 E2) as F.
+    simpl in Hin. apply in_flat_map in Hin. destruct Hin as [q [Hq Hs]].
+    rewrite Forall_forall in H, F. destruct (F q Hq) as [oq [A B]]. eapply H; eauto.
+Qed.
+
+Theorem nested_guard_necessary : forall p b o,
+  expand_A p (SeqBool b) = Ok o -> symbols_B p (SeqBool b) = Ok o ->
+  forall s, In s (inner_strings p) -> symbols_B (PStr s) (SeqBool b) = symbols_B (PStr s) SeqAbsent.
+Proof.
+  intros p b o HA HB s Hin. destruct p as [s0|k l|]; simpl in Hin; try contradiction.
+  rewrite expand_A_seq in HA. rewrite symbols_B_seq in HB. unfold wrap in *.
+  destruct (map_res (fun q => expand_A q SeqAbsent) l) as [os1|] eqn:E1; [|discriminate].
+  destruct (map_res (fun q => symbols_B q (SeqBool b)) l) as [os2|] eqn:E2; [|discriminate].
+  inversion HA; subst. inversion HB; subst.
+  pose proof (map_res_ok_inv _ _ _ _ E1 E2) as F. rewrite Forall_forall in F.
+  apply in_flat_map in Hin. destruct Hin as [q [Hq Hs]]. destruct (F q Hq) as [oq [A B]].
+  rewrite nested_equal_absent in A. eapply symbols_B_sensitive; eauto.
+Qed.
+
 Open Scope string_scope.
 Theorem nested_seq_refuted :
   (exists p, expand_A p (SeqBool true) <> symbols_B p (SeqBool true)) /\
